@@ -62,8 +62,6 @@ func shmBase2() string {
 	return os.TempDir()
 }
 
-
-
 var hexRe = regexp.MustCompile(`0x[0-9a-f]+`)
 
 // classifyPanic extracts message and call site of a Go panic / fatal error from stderr.
@@ -226,8 +224,10 @@ func accumulate(res *check.Result, co *childOut) {
 		res.VirtualSec += co.Events[n-1].T.Seconds()
 	}
 	h := res.Hash
+	// the world directory carries the process id: the witness hashes paths relative to it
+	rel := func(s string) string { return strings.ReplaceAll(s, filepath.Dir(co.WorldDir), "") }
 	for _, ev := range co.Events {
-		h = fmt.Sprintf("%016x", kernel.Hash64(0, h, fmt.Sprint(ev.Seq, ev.T, ev.Kind, ev.Site, ev.ID, ev.Val, ev.Err, ev.Fault)))
+		h = fmt.Sprintf("%016x", kernel.Hash64(0, h, fmt.Sprint(ev.Seq, ev.T, ev.Kind, rel(ev.Site), rel(ev.ID), ev.Val, rel(ev.Err), ev.Fault)))
 		if ev.NParked > 1 {
 			res.MultiCh++
 		}
